@@ -15,8 +15,10 @@ use std::collections::{BTreeMap, BTreeSet};
 pub struct C12 {
     cov: Cov,
     frozen: BTreeSet<Pubkey>,
-    /// per group: (last observed window reset timestamp, dollars withdrawn by deleverage since)
-    window: BTreeMap<Pubkey, (i64, Q, i128)>,
+    /// per group: (last observed window reset timestamp, (time, whole dollars) of every deleverage
+    /// withdrawal since the last reset BY EXPIRY - a re-configuration of the limit moves the
+    /// window start but forgives nothing)
+    window: BTreeMap<Pubkey, (i64, Vec<(i64, Q)>)>,
 }
 
 impl Default for C12 {
@@ -38,6 +40,7 @@ impl Default for C12 {
             "bank_frozen",
             "oracle_change_on_frozen_bank_rejected",
             "deleverage_window_reset",
+            "deleverage_withdrawals_before_a_reconfiguration_counted",
             "deleverage_limit_hit",
             "group_configure_judged",
             "purge_judged",
@@ -192,10 +195,13 @@ impl Monitor for C12 {
                     if let (Some(g0), Some(g1)) = (model::group_of(a, &group_key), model::group_of(b, &group_key)) {
                         let w0 = g0.deleverage_withdraw_window_cache;
                         let w1 = g1.deleverage_withdraw_window_cache;
-                        let entry = self
+                        // forks are judged on a copy: only the main line's withdrawals persist
+                        let mut local = self
                             .window
-                            .entry(group_key)
-                            .or_insert((w0.last_daily_reset_timestamp, Q::zero(), 0));
+                            .get(&group_key)
+                            .cloned()
+                            .unwrap_or((w0.last_daily_reset_timestamp, Vec::new()));
+                        let entry = &mut local;
                         if w1.last_daily_reset_timestamp != entry.0 {
                             if w1.last_daily_reset_timestamp - entry.0 < 86_400 && entry.0 != 0 {
                                 // a reset by configure_deleverage_withdrawal_limit is admin action, judged below
@@ -205,7 +211,7 @@ impl Monitor for C12 {
                                 }
                             }
                             self.cov.probe("deleverage_window_reset");
-                            *entry = (w1.last_daily_reset_timestamp, Q::zero(), 0);
+                            *entry = (w1.last_daily_reset_timestamp, Vec::new());
                         }
                         // dollar value of this withdrawal at the low-biased spot price
                         let bk = ix.accounts[3].pubkey;
@@ -213,17 +219,29 @@ impl Monitor for C12 {
                             let amount = qu(model::vault_amount(a, &bank0.liquidity_vault).saturating_sub(model::vault_amount(b, &bank1.liquidity_vault)));
                             if let Some((low, _, _)) = refm::read_oracle(a, &bank0, s.clock).ok().and_then(|v| refm::biased(&v, &bank0, false).ok()) {
                                 let dollars = (amount * low / model::pow10(bank0.mint_decimals as u32)).floor();
-                                entry.1 += &dollars;
-                                entry.2 += 1;
+                                let now = s.clock.unix_timestamp;
+                                entry.1.push((now, dollars));
                                 self.cov.probe("deleverage_withdraw_counted");
                                 let limit = w1.daily_limit;
-                                // whole dollars are counted per withdrawal: allow one dollar of
-                                // truncation slack per counted withdrawal is not needed (floor both)
-                                if limit != 0 && entry.1 > qu(limit as u64) + qi(entry.2) {
-                                    out.push(viol("C12", "deleverage_daily_limit_exceeded", ix.tag,
-                                        format!("group {group_key}: withdrawn {} limit {limit}", q_str(&entry.1)), idx));
+                                // "within a day": withdrawals of the current window chain that are
+                                // less than 24 h old (a subset of what the program's own counter
+                                // holds, so the unchanged program can never exceed it)
+                                let recent: Vec<&(i64, Q)> = entry.1.iter().filter(|(t, _)| now - *t < 86_400).collect();
+                                let sum = recent.iter().fold(Q::zero(), |acc, (_, d)| acc + d);
+                                if recent.len() < entry.1.len() || entry.1.iter().any(|(t, _)| *t < entry.0) {
+                                    self.cov.probe("deleverage_withdrawals_before_a_reconfiguration_counted");
                                 }
+                                // one dollar of truncation slack per counted withdrawal
+                                if limit != 0 && sum > qu(limit as u64) + qi(recent.len() as i128) {
+                                    out.push(viol("C12", "deleverage_daily_limit_exceeded", ix.tag,
+                                        format!("group {group_key}: withdrawn {} within a day, limit {limit}", q_str(&sum)), idx));
+                                }
+                                // forget what can no longer matter
+                                entry.1.retain(|(t, _)| now - *t < 86_400);
                             }
+                        }
+                        if !s.is_fork {
+                            self.window.insert(group_key, local);
                         }
                     }
                 }
@@ -321,7 +339,9 @@ impl Monitor for C12 {
                 let group_key = ix.accounts[0].pubkey;
                 if let Some(g1) = model::group_of(b, &group_key) {
                     if !s.is_fork {
-                        self.window.insert(group_key, (g1.deleverage_withdraw_window_cache.last_daily_reset_timestamp, Q::zero(), 0));
+                        // the window start moves to now; what was withdrawn earlier today still counts
+                        let ts = g1.deleverage_withdraw_window_cache.last_daily_reset_timestamp;
+                        self.window.entry(group_key).or_insert((ts, Vec::new())).0 = ts;
                     }
                 }
             }
